@@ -272,6 +272,7 @@ func C03(p *load.Prog, r *report.Report) {
 		r.Undecided("C03.model", "layout", "", err.Error())
 		return
 	}
+	m.stateGuard(r, "C03", true, false)
 	all := map[string]bool{"identity": true, "compressed": true, "uncompressed": true}
 	elemDecoder(p, r, m, decCase{"Decode", "bytes", all})
 	elemDecoder(p, r, m, decCase{"UnmarshalBinary", "bytes", all})
